@@ -41,6 +41,12 @@ CLAIMED = {
  "C17": dict(ref="7/C17", technique="Lean 4 invariant proof over arbitrary operation histories (cache is absent or belongs to the current parameters), with the cache-reset behaviour of set_prms regenerated from the source by the translator + dsm-history correspondence (fresh object next to every compute)",
              text="Machine-checked proof: for the state machine {set_prms, set driver, read sf, read pdf, compute} transcribed from lifetime_models.py/stocks.py, after any sequence of operations compute() yields exactly the results of a freshly built stock with the current parameters and driver, and a second compute() changes nothing. The proof needs that set_prms discards both cached tables; that fact is re-extracted from the AST on every run (theorem source_resets_caches), and a counterexample theorem shows the stale result otherwise (defect D4, fixed).",
              note="abstract over the table-building functions (their correctness is C08/C03); the system-level loop is covered by the correspondence stream, which also builds stocks through StockDefinition/make_empty_stocks"),
+ "C13": dict(ref="7/C13", technique="Lean 4: every model operation returns well-formed arrays (constructor validation unfolded), failed calls return the store unchanged, invariant lifted to all operation histories by induction; validators' comparisons regenerated from the AST + history correspondence with ill-formed calls and full-store dumps after every step",
+             text="Machine-checked proof: the constructor accepts exactly distinct letters with values of the dimensions' shape and stores them as given; set_values / whole-array assignment reject any other shape; every operator, reduction, cast, slice read and assignment of the model yields arrays whose shape equals the lengths of their dims (assignment keeps dims and shape); a call that raises leaves the store unchanged; hence the invariant holds in every store reachable by any sequence of successful and failed calls (induction over histories). Stocks accept only arrays and lifetime models over exactly their own dimension set with time first, lifetime models require time first (flags re-extracted from the source on every run).",
+             note="the model's operations are tied to the code by the history/array-ops/index correspondences; apply() with shape-changing functions and direct attribute overwrites are excluded as in the property"),
+ "C15": dict(ref="7/C15", technique="Lean 4: value-level theorem (operations addressed to one handle never change another, over whole histories) + buffer-level model (fresh allocation => no sharing, write isolation, invariant over allocation histories) + history/index correspondences with write-through probes on every returned array and full-store dumps",
+             text="Machine-checked proof: in the store model an operation that is not in-place leaves every other array unchanged and an in-place assignment changes only its target (lifted to histories); in the buffer model results allocated freshly never share a buffer with any existing handle, so writes through a result or a source are mutually invisible (no-sharing invariant by induction). The driver allocates exactly this way; where numpy itself returns a view (sum_to/sum_over without summation) the model mirrors the view. The correspondence writes into every returned array and into assigned ndarrays and compares the dump of the whole store.",
+             note="object identity in the implementation is observable only through probes (correspondence), not through theorems; to_df/from_df/system-building/export inputs-untouched are covered by their own streams (C11, C18, C19)"),
 }
 
 def main():
